@@ -6,10 +6,10 @@ package main
 // replica rebuilt by replaying the history.
 
 import (
-	"github.com/massnetorg/mass-core/pocec"
 	"encoding/hex"
 	"errors"
 	"fmt"
+	"github.com/massnetorg/mass-core/pocec"
 	"sort"
 	"strconv"
 	"strings"
